@@ -156,9 +156,19 @@ def run(ctx):
             tm.trigger_display_order = list(spec["order"])
         return tm
 
+    lock_n = [0]
+
     def mk_lock(l):
         if l is None:
             return None
+        lock_n[0] += 1
+        if lock_n[0] % 3 == 0:
+            # every third lock is default-constructed and filled in place afterwards (the lists a lock hands out are the
+            # user's to edit); a later default lock must start empty again
+            lk = TriggerCELock(lock_conditions=l["lc"], lock_effects=l["le"])
+            lk.lock_condition_type.extend(l["ct"]); lk.lock_effect_type.extend(l["et"])
+            lk.lock_condition_ids.extend(l["ci"]); lk.lock_effect_ids.extend(l["ei"])
+            return lk
         return TriggerCELock(lock_conditions=l["lc"], lock_effects=l["le"], lock_condition_type=list(l["ct"]),
                              lock_effect_type=list(l["et"]), lock_condition_ids=list(l["ci"]), lock_effect_ids=list(l["ei"]))
 
